@@ -17,7 +17,10 @@ def _sum_obs(results):
             if isinstance(v, bool):
                 v = int(v)
             if isinstance(v, (int, float)):
-                tot[k] = tot.get(k, 0) + v
+                if k.startswith('max_') or k.endswith('_max'):
+                    tot[k] = max(tot.get(k, v), v)
+                else:
+                    tot[k] = tot.get(k, 0) + v
             elif isinstance(v, dict):
                 d = tot.setdefault(k, {})
                 for kk, vv in v.items():
@@ -45,6 +48,7 @@ def main(argv=None):
     ap.add_argument('--replay', default=None)
     ap.add_argument('--max-cases', type=int, default=None)
     ap.add_argument('--no-evidence', action='store_true')
+    ap.add_argument('--dump', default=None, help='write all raw case results to this file')
     a = ap.parse_args(argv)
     prop = a.prop.upper()
     tier = a.tier or env.tier()
@@ -75,6 +79,9 @@ def main(argv=None):
     results = runner.run_cases(prop, specs, chunk=getattr(mod, 'CHUNK', {}).get(tier, 4),
                                timeout=getattr(mod, 'TIMEOUT', 900))
 
+    if a.dump:
+        with open(a.dump, 'w') as f:
+            json.dump({'specs': specs, 'results': results}, f, default=str)
     viols = []          # (spec, violation dict)
     for spec, r in zip(specs, results):
         if r.get('status') == 'violation':
